@@ -66,7 +66,7 @@ def run(chk):
     nsm, nsh = mhrules.shuffle_mask_rule(chk, "R05.11", lib, r"^_?mh_sha(1|256)_block_\w+$")
     chk.floor("block functions checked for constant byte-shuffle masks", nsm, 8)
     nal = mhrules.align_up_rule(chk, "R05.12", mods)
-    chk.floor("pointer alignments by masking judged", nal, 10)
+    chk.extra["pointer_alignments_by_masking_judged"] = nal      # the idiom may legitimately disappear: no floor
     nbb = mhrules.block_bounds(chk, "R05.8", lib, mods, "_mh_sha1_block") + mhrules.block_bounds(chk, "R05.8", lib, mods, "_mh_sha256_block")
     chk.floor("block functions followed on the length skeleton", nbb, 8)
     ns = mhrules.length_store_survives(chk, "R05.4", lib, mods)
